@@ -165,10 +165,14 @@ class BitString(Type):
         super(BitString, self).__init__(name, 'BIT STRING')
 
     def encode(self, data, _separator, _indent):
-        encoded = int(binascii.hexlify(data[0]), 16)
-        encoded |= (0x80 << (8 * len(data[0])))
+        if data[1] > 0:
+            encoded = int(binascii.hexlify(data[0]), 16)
+            encoded |= (0x80 << (8 * len(data[0])))
+            encoded = bin(encoded)[10:10 + data[1]]
+        else:
+            encoded = ''
 
-        return "'{}'B".format(bin(encoded)[10:10 + data[1]]).upper()
+        return "'{}'B".format(encoded)
 
 
 class OctetString(Type):
